@@ -6,13 +6,13 @@ package server
 // package are switched to vquic by vgen.
 
 import (
-	"os"
 	"crypto/tls"
 	"errors"
 	"fmt"
 	"net"
 	"net/http"
 	"net/url"
+	"os"
 	"strconv"
 	"strings"
 
@@ -44,20 +44,22 @@ type rig struct {
 	pc     *vnet.PacketConn
 	Events []rigEvent
 	// knobs
-	GoodCred   string
-	DialErr    map[string]error          // Outbound.TCP error per address
-	Targets    map[string]*vnet.Conn     // harness end of the pipe handed out by Outbound.TCP, per address
-	RelayEnds  map[string]*vnet.Conn     // the end given to the server, per address
-	TargetBuf  int
-	UDPSocks   []*rigUDPConn
+	GoodCred    string
+	OnceCred    string // accepted by the authenticator the first time it is presented, rejected afterwards
+	onceUsed    bool
+	DialErr     map[string]error      // Outbound.TCP error per address
+	Targets     map[string]*vnet.Conn // harness end of the pipe handed out by Outbound.TCP, per address
+	RelayEnds   map[string]*vnet.Conn // the end given to the server, per address
+	TargetBuf   int
+	UDPSocks    []*rigUDPConn
 	TrafficVeto func(n int, id string, tx, rx uint64) bool // n = 1-based LogTraffic call; true = veto
-	trafficN   int
+	trafficN    int
 	// TCPErrorGate: a slow event logger. When set and it returns a predicate for reqAddr, the
 	// server's TCPError call for that request blocks until the predicate holds.
 	TCPErrorGate func(reqAddr string) func() bool
-	Online     map[string]int
-	serveDone  bool
-	nclients   int
+	Online       map[string]int
+	serveDone    bool
+	nclients     int
 }
 
 func (r *rig) ev(ev rigEvent) { r.Events = append(r.Events, ev) }
@@ -69,6 +71,11 @@ type rigAuth struct{ r *rig }
 func (a rigAuth) Authenticate(addr net.Addr, auth string, tx uint64) (bool, string) {
 	a.r.e.Point("env", nil, "Authenticate")
 	ok := auth == a.r.GoodCred
+	if a.r.OnceCred != "" && auth == a.r.OnceCred {
+		// a one-time token: the backend accepts it for the first connection that presents it only
+		ok = !a.r.onceUsed
+		a.r.onceUsed = true
+	}
 	a.r.ev(rigEvent{Kind: "auth", Conn: addr.String(), A: auth, OK: ok, N: tx})
 	return ok, "user:" + auth
 }
